@@ -560,6 +560,7 @@ class Linalg:
         """
         side = len(matrix)
         inverse = np.eye(side, dtype="object")
+        matrix = np.array(matrix, dtype="object")  # Python ints of any size
         matrix = np.column_stack((matrix, inverse))
 
         # Eliminate lower triangle
